@@ -4123,4 +4123,331 @@ def tracePaths (g : Graph) (w : Nat) : Nat → State → List (List Nat)
     | (s1, _, .cont) => (s1.wd w).path :: tracePaths g w k s1
     | _ => []
 
+
+/-! ## lazily expanded graphs: the state hypotheses hold in every reachable state -/
+
+/-- worker `w` has not dropped an unexplored flat node from the root -/
+def AvW (g : Graph) (w : Nat) (s : State) : Prop :=
+  ∀ f, f < g.nodes.length → unexpl g s f = true → dropped s w (false, (g.node g.root).cls, (g.node f).cls) = false
+
+/-- the root and the flat nodes are parsed -/
+def HidOK (g : Graph) (s : State) : Prop :=
+  s.hidden.contains g.root = false ∧ ∀ f, (g.node f).flat = true → s.hidden.contains f = false
+
+theorem HidOK.mono {g : Graph} {s s' : State} (h : HidOK g s) (hh : ∀ x, x ∈ s'.hidden → x ∈ s.hidden) : HidOK g s' := by
+  have key : ∀ x, s.hidden.contains x = false → s'.hidden.contains x = false := by
+    intro x hx
+    cases hc : s'.hidden.contains x
+    · rfl
+    · have := hh x (List.contains_iff_mem.mp hc)
+      rw [List.contains_iff_mem.mpr this] at hx; cases hx
+  exact ⟨key _ h.1, fun f hf => key _ (h.2 f hf)⟩
+
+/-- a piece of a step whose new drops of `w` concern the class of a node that is not an unexplored flat node afterwards -/
+theorem avW_of_loc {g : Graph} (hz : LazyOK g) {w : Nat} {s s' : State} (n : Nat) (hn : n < g.nodes.length)
+    (a : Loc w (fun k => k.2.2 = (g.node n).cls) s s') (hav : AvW g w s) (hnot : unexpl g s' n = false) : AvW g w s' := by
+  intro f hfN hfu
+  cases hd : dropped s' w (false, (g.node g.root).cls, (g.node f).cls)
+  · rfl
+  · exfalso
+    rcases a.drops w _ hd with h1 | ⟨_, h1⟩
+    · rw [hav f hfN (unexpl_mono g s s' a.hiddenSub a.incSub f hfu)] at h1; cases h1
+    · simp only at h1
+      have := hz.clsUniq f n hfN hn (unexpl_flat g s' f hfu).1 h1.symm
+      rw [this] at hnot
+      rw [hnot] at hfu; cases hfu
+
+/-- a piece of a step without new drops of `w` -/
+theorem avW_of_same {g : Graph} {w : Nat} {s s' : State} (hh : ∀ x, x ∈ s'.hidden → x ∈ s.hidden)
+    (hi : ∀ x, x ∈ s.incompatible → x ∈ s'.incompatible) (hd : ∀ k, dropped s' w k = dropped s w k)
+    (hav : AvW g w s) : AvW g w s' := by
+  intro f hfN hfu
+  rw [hd]
+  exact hav f hfN (unexpl_mono g s s' hh hi f hfu)
+
+theorem iter_rootReady_dropped (gv : Graph) (s : State) (w : Nat) (h : isCleanupReady gv s gv.root w = true) (u : Nat) (k : Key) :
+    dropped (iter gv s w).1 u k = dropped s u k := by
+  unfold iter
+  dsimp only
+  simp only [h, if_true]
+  split <;> rfl
+
+theorem iter_short_dropped (gv : Graph) (s : State) (w : Nat) (h : (s.wd w).path.length ≤ 1) (u : Nat) (k : Key) :
+    dropped (iter gv s w).1 u k = dropped s u k := by
+  unfold iter
+  dsimp only
+  split
+  · split <;> rfl
+  · cases hl : (s.wd w).path.getLast? with
+    | none => rfl
+    | some next =>
+      dsimp only
+      split
+      · cases hpk : pickChild gv s next w with
+        | none => rfl
+        | some r =>
+          obtain ⟨c, s3⟩ := r
+          dsimp only
+          obtain ⟨_, _, hs3⟩ := pickChild_spec _ s next w c s3 hpk
+          unfold pushPath
+          rw [dropped_setWd, hs3, dropped_setCr_pickS]
+      · rename_i hne1
+        exfalso
+        have : (s.wd w).path ≠ [] := by intro h0; rw [h0] at hl; simp at hl
+        have h0 := List.length_pos_iff.mpr this
+        simp at hne1
+        omega
+
+/-- one iteration keeps "no unexplored flat node dropped from the root" for the worker -/
+theorem iterL_av (g : Graph) (d : Nat → Nat) (hr : Ranked g d) (hsym : EdgeSym g) (hz : LazyOK g) (s : State) (w : Nat)
+    (hwalk : Walk g d (s.wd w).path) (hpc : (s.wd w).pc = .loop) (hhid : HidOK g s) (hav : AvW g w s) :
+    AvW g w (iterL g s w).1 := by
+  by_cases hlen : (s.wd w).path.length ≤ 1
+  · -- at the root (or nowhere): nothing is dropped
+    have hcond : (isCleanupReady (vis g s) s g.root w || decide ((s.wd w).path.length ≤ 1)) = true := by simp [hlen]
+    obtain ⟨a, _, _⟩ := iter_any (D := DT) g d hr hsym s w hwalk hpc (fun _ _ _ _ => trivial)
+    unfold iterL
+    simp only [hcond, if_true]
+    exact avW_of_same a.hiddenSub a.incSub (fun k => iter_short_dropped _ s w hlen w k) hav
+  · have hlen2 : 2 ≤ (s.wd w).path.length := by omega
+    have hne : (s.wd w).path ≠ [] := by intro h0; rw [h0] at hlen2; simp at hlen2
+    have hw : w < s.workers.length := lt_of_path_ne_nil s w hne
+    have hl := last_of_top s w hne
+    have htN : top s w < g.nodes.length := walk_top_lt g d _ _ hwalk hl hlen2
+    by_cases hcond : (isCleanupReady (vis g s) s g.root w || decide ((s.wd w).path.length ≤ 1)) = true
+    · have hrr : isCleanupReady (vis g s) s (vis g s).root w = true := by
+        rw [vis_root]
+        simp only [Bool.or_eq_true, decide_eq_true_eq] at hcond
+        rcases hcond with h0 | h0
+        · exact h0
+        · omega
+      obtain ⟨a, _, _⟩ := iter_any (D := DT) g d hr hsym s w hwalk hpc (fun _ _ _ _ => trivial)
+      unfold iterL
+      simp only [hcond, if_true]
+      exact avW_of_same a.hiddenSub a.incSub (fun k => iter_rootReady_dropped _ s w hrr w k) hav
+    · unfold iterL
+      simp only [hcond, Bool.false_eq_true, if_false]
+      obtain ⟨p1, _, _, p4, _, p6, p7, p8⟩ := prepare_lazy g hz.kids s w hw hne
+      -- after the expansion step the last node of the path is not unexplored
+      have hnot1 : unexpl g (prepare g s w) (top s w) = false := by
+        cases hu : unexpl g (prepare g s w) (top s w)
+        · rfl
+        · have hu0 := unexpl_mono g s _ p6 p7 _ hu
+          rw [p8 (top s w) hl htN hu0 (hhid.2 _ (unexpl_flat g s _ hu0).1)] at hu
+          cases hu
+      have hav1 : AvW g w (prepare g s w) := avW_of_same p6 p7 (fun k => dropped_of_regs s _ p1 w k) hav
+      obtain ⟨pa, pb, pc⟩ := prepare_loc (D := DT) g s w
+      obtain ⟨a, _, _⟩ := iter_any (D := fun k => k.2.2 = (g.node (top s w)).cls) g d hr hsym (prepare g s w) w
+        (by rw [pb]; exact hwalk) (by rw [pc]; exact hpc)
+        (fun next hln k hk => by
+          rw [pb, hl] at hln
+          simp only [Option.some.injEq] at hln
+          rw [hln]; exact hk)
+      refine avW_of_loc hz (top s w) htN a hav1 ?_
+      cases hu : unexpl g (iter (vis g (prepare g s w)) (prepare g s w) w).1 (top s w)
+      · rfl
+      · rw [unexpl_mono g _ _ a.hiddenSub a.incSub _ hu] at hnot1; cases hnot1
+
+
+theorem avW_setWd {g : Graph} {w : Nat} {s : State} (f : WorkerD → WorkerD) (hav : AvW g w s) : AvW g w (s.setWd w f) :=
+  avW_of_same (fun _ h => h) (fun _ h => h) (fun k => dropped_setWd s w f w k) hav
+
+theorem hidOK_setWd {g : Graph} {s : State} (w : Nat) (f : WorkerD → WorkerD) (h : HidOK g s) : HidOK g (s.setWd w f) := h
+
+theorem runLoop_av (g : Graph) (d : Nat → Nat) (hr : Ranked g d) (hsym : EdgeSym g) (hz : LazyOK g) (w : Nat) (fuel : Nat)
+    (s : State) (evs : List Event) (hwalk : Walk g d (s.wd w).path) (hhid : HidOK g s) (hav : AvW g w s) :
+    AvW g w (runLoop g w fuel s evs).1 := by
+  induction fuel generalizing s evs with
+  | zero => exact hav
+  | succ fuel ih =>
+    unfold runLoop
+    dsimp only
+    have hp0 : ((s.setWd w (fun d => { d with pc := .loop })).wd w).path = (s.wd w).path :=
+      wd_setWd_proj (·.path) s w (fun d => { d with pc := .loop }) (fun _ => rfl) w
+    have hpc0 : ((s.setWd w (fun d => { d with pc := .loop })).wd w).pc = .loop := by
+      rcases pc_setLoop s w with h | h
+      · exact h
+      · rw [wd_of_ge _ w (by simp [State.setWd]; omega)]
+    have hav0 : AvW g w (s.setWd w (fun d => { d with pc := .loop })) := avW_setWd _ hav
+    have hw0 : Walk g d ((s.setWd w (fun d => { d with pc := .loop })).wd w).path := by rw [hp0]; exact hwalk
+    have h1 := iterL_av g d hr hsym hz _ w hw0 hpc0 (hidOK_setWd w _ hhid) hav0
+    obtain ⟨a, h2, _⟩ := iterL_any (D := DT) g d hr hsym _ w hw0 hpc0 (fun _ _ _ _ => trivial)
+    split
+    · next s1 e heq =>
+      rw [heq] at h1 h2 a
+      exact ih s1 _ h2 (HidOK.mono (hidOK_setWd w _ hhid) a.hiddenSub) h1
+    · next s1 e heq => rw [heq] at h1; exact h1
+    · next s1 e heq => rw [heq] at h1; exact h1
+    · next s1 e what heq => rw [heq] at h1; exact avW_setWd _ h1
+
+theorem avW_of_noDrops {g : Graph} {w : Nat} {s s' : State} (a : Loc w (fun _ => False) s s') (hav : AvW g w s) : AvW g w s' := by
+  intro f hfN hfu
+  cases hd : dropped s' w (false, (g.node g.root).cls, (g.node f).cls)
+  · rfl
+  · rcases a.drops w _ hd with h1 | ⟨_, h1⟩
+    · rw [hav f hfN (unexpl_mono g s s' a.hiddenSub a.incSub f hfu)] at h1; cases h1
+    · exact absurd h1 id
+
+theorem unexpl_of_not_flat (g : Graph) (s : State) (n : Nat) (h : (g.node n).flat = false) : unexpl g s n = false := by
+  unfold unexpl; rw [h]; rfl
+
+theorem continueAfter_av (g : Graph) (d : Nat → Nat) (hr : Ranked g d) (hsym : EdgeSym g) (hz : LazyOK g) (w n : Nat)
+    (phase : Phase) (dir : Dir) (fuel : Nat) (s : State) (ok : Bool) (evs : List Event)
+    (hw : w < s.workers.length) (hlast : (s.wd w).path.getLast? = some n) (hlen : 2 ≤ (s.wd w).path.length)
+    (hwalk : Walk g d (s.wd w).path)
+    (hdir : dir = .down → isUp g ((s.wd w).path.getD ((s.wd w).path.length - 2) 0) n = false)
+    (hnf : (g.node n).flat = false) (hhid : HidOK g s) (hav : AvW g w s) :
+    AvW g w (resumeTest.continueAfter g w n phase dir fuel s ok evs).1 := by
+  have hnN : n < g.nodes.length := walk_top_lt g d _ n hwalk hlast hlen
+  unfold resumeTest.continueAfter
+  dsimp only
+  split
+  · obtain ⟨h1, _, _⟩ := startTest_own (D := fun _ => False) g s n w .main dir hw
+    exact avW_of_noDrops h1 hav
+  · have a2 : LW w (fun k => k.2.2 = (g.node n).cls) s (if (phase == Phase.pre) = true then
+          s.setNd n (fun d => { d with results := d.results ++ (s.wd w).preResults.drop d.results.length })
+        else s) := by
+      split
+      · exact (fr_setNd s n _).lw w
+      · exact LW.refl w s
+    have aF := a2.trans ((fr_finishTraverse _ n w).lw w)
+    generalize finishTraverse (if (phase == Phase.pre) = true then
+          s.setNd n (fun d => { d with results := d.results ++ (s.wd w).preResults.drop d.results.length })
+        else s) n w = sF at aF
+    obtain ⟨h1, h2, _⟩ := afterTraverse_any g d hr hsym sF sF w n ((s.wd w).path.getD ((s.wd w).path.length - 2) 0) dir
+      (by rw [aF.workersLen]; exact hw) (by rw [aF.own]; exact hlast) (by rw [aF.own]) (by rw [aF.own]; exact hwalk) hdir
+      (D := fun k => k.2.2 = (g.node n).cls) (fun _ hk => hk)
+    generalize afterTraverse (vis g sF) sF w n ((s.wd w).path.getD ((s.wd w).path.length - 2) 0) dir = r at h1 h2
+    obtain ⟨s1, e2, fl⟩ := r
+    dsimp only at h1 h2
+    have hav1 : AvW g w s1 := avW_of_loc hz n hnN (aF.toLoc.trans h1) hav (unexpl_of_not_flat g s1 n hnf)
+    have hhid1 : HidOK g s1 := HidOK.mono hhid (aF.toLoc.trans h1).hiddenSub
+    cases fl with
+    | raise what => exact avW_setWd _ hav1
+    | cont => exact runLoop_av g d hr hsym hz w fuel s1 _ h2 hhid1 hav1
+    | suspend => exact runLoop_av g d hr hsym hz w fuel s1 _ h2 hhid1 hav1
+    | exit => exact runLoop_av g d hr hsym hz w fuel s1 _ h2 hhid1 hav1
+
+theorem resumeTest_av (g : Graph) (d : Nat → Nat) (hr : Ranked g d) (hsym : EdgeSym g) (hz : LazyOK g) (s : State) (w n : Nat)
+    (phase : Phase) (dir : Dir) (uid : String) (tag wait : Nat) (out : Outcome) (fuel : Nat)
+    (hw : w < s.workers.length) (hlast : (s.wd w).path.getLast? = some n) (hlen : 2 ≤ (s.wd w).path.length)
+    (hwalk : Walk g d (s.wd w).path)
+    (hdir : dir = .down → isUp g ((s.wd w).path.getD ((s.wd w).path.length - 2) 0) n = false)
+    (hnf : (g.node n).flat = false) (hhid : HidOK g s) (hav : AvW g w s) :
+    AvW g w (resumeTest g s w n phase dir uid tag wait out fuel).1 := by
+  rw [resumeTest_eq]
+  have aA := reportOutcome_lw (D := fun _ => False) g s w n phase uid wait out
+  have havA : AvW g w (reportOutcome g s w n phase uid wait out).1 := avW_of_noDrops aA.toLoc hav
+  have hhidA : HidOK g (reportOutcome g s w n phase uid wait out).1 := HidOK.mono hhid aA.hiddenSub
+  generalize (reportOutcome g s w n phase uid wait out).1 = sa at aA havA hhidA
+  have hwA : w < sa.workers.length := by rw [aA.workersLen]; exact hw
+  split
+  · next st0 dur _ =>
+    obtain ⟨b1, b2, b3⟩ := recordResult_loc (D := fun _ => False) sa w n phase
+      (if (phase == Phase.pre) = true then (s.wd w).preName else (g.node n).name) uid tag st0 dur
+    rw [aA.own] at b2 b3
+    exact continueAfter_av g d hr hsym hz w n phase dir fuel _ _ _ (by rw [b1.workersLen]; exact hwA)
+      (by rw [b2]; exact hlast) (by rw [b2]; exact hlen) (by rw [b2]; exact hwalk) (by rw [b2]; exact hdir) hnf
+      (HidOK.mono hhidA b1.hiddenSub) (avW_of_noDrops b1 havA)
+  · split
+    · exact avW_setWd _ havA
+    · split
+      · exact avW_setWd _ havA
+      · exact continueAfter_av g d hr hsym hz w n phase dir fuel sa false _ hwA
+          (by rw [aA.own]; exact hlast) (by rw [aA.own]; exact hlen) (by rw [aA.own]; exact hwalk)
+          (by rw [aA.own]; exact hdir) hnf hhidA havA
+
+/-- the scheduler step as a whole: what it does outside the worker's own record -/
+theorem resume_loc (g : Graph) (d : Nat → Nat) (hr : Ranked g d) (hsym : EdgeSym g) (s : State) (w : Nat) (out : Outcome)
+    (fuel : Nat) (hf : 0 < fuel) (hw : w < g.workers.length) (hp : PInv g s) (h : TInv g d s) :
+    Loc w DT s (resume g s w out fuel).1 := by
+  have hws : w < s.workers.length := by rw [hp.wlen]; exact hw
+  unfold resume
+  split
+  · exact (runLoop_any g d hr hsym w fuel s [] (h.walk w) (fun h0 => by omega)).1
+  · exact (runLoop_any g d hr hsym w fuel s [] (h.walk w) (fun h0 => by omega)).1
+  · next n phase dir uid tag wait heq =>
+    obtain ⟨_, hlast, _⟩ := hp.testOwn w n (by rw [heq]; rfl)
+    exact (resumeTest_any g d hr hsym s w n phase dir uid tag wait out fuel hf hws hlast (h.walk w)
+      (fun hdn => (h.dir w).1 n phase uid tag wait (by rw [heq, hdn]) n hlast)
+      ((h.dir w).2 n phase dir uid tag wait heq)).1
+  · exact Loc.refl w s
+  · exact Loc.refl w s
+
+/-- the invariant of lazily expanded graphs -/
+structure ZInv (g : Graph) (d : Nat → Nat) (s : State) : Prop where
+  tinv : TInv g d s
+  hid : HidOK g s
+  av : ∀ u, AvW g u s
+
+theorem resume_zinv (g : Graph) (d : Nat → Nat) (hr : Ranked g d) (hsym : EdgeSym g) (hz : LazyOK g) (s : State) (w : Nat)
+    (out : Outcome) (fuel : Nat) (hf : 0 < fuel) (hw : w < g.workers.length) (hp : PInv g s) (h : ZInv g d s) :
+    ZInv g d (resume g s w out fuel).1 := by
+  have hws : w < s.workers.length := by rw [hp.wlen]; exact hw
+  have a := resume_loc g d hr hsym s w out fuel hf hw hp h.tinv
+  refine ⟨resume_tinv g d hr hsym s w out fuel hf hw hp h.tinv, HidOK.mono h.hid a.hiddenSub, fun u => ?_⟩
+  by_cases hu : u = w
+  · subst hu
+    unfold resume
+    split
+    · exact runLoop_av g d hr hsym hz u fuel s [] (h.tinv.walk u) h.hid (h.av u)
+    · exact runLoop_av g d hr hsym hz u fuel s [] (h.tinv.walk u) h.hid (h.av u)
+    · next n phase dir uid tag wait heq =>
+      obtain ⟨_, hlast, hlen⟩ := hp.testOwn u n (by rw [heq]; rfl)
+      exact resumeTest_av g d hr hsym hz s u n phase dir uid tag wait out fuel hws hlast hlen (h.tinv.walk u)
+        (fun hdn => (h.tinv.dir u).1 n phase uid tag wait (by rw [heq, hdn]) n hlast)
+        ((h.tinv.dir u).2 n phase dir uid tag wait heq) h.hid (h.av u)
+    · exact h.av u
+    · exact h.av u
+  · intro f hfN hfu
+    cases hd : dropped (resume g s w out fuel).1 u (false, (g.node g.root).cls, (g.node f).cls)
+    · rfl
+    · rcases a.drops u _ hd with h1 | ⟨h1, _⟩
+      · rw [h.av u f hfN (unexpl_mono g s _ a.hiddenSub a.incSub f hfu)] at h1; cases h1
+      · exact absurd h1 hu
+
+/-- the states reachable from the initial state with the given set of hidden nodes -/
+inductive ReachableL (g : Graph) (ncls : Nat) (store : List (String × List (String × String))) (hidden : List Nat) : State → Prop
+  | init : ReachableL g ncls store hidden (initState g ncls store hidden)
+  | step (s : State) (w : Nat) (out : Outcome) (fuel : Nat) :
+      ReachableL g ncls store hidden s → w < g.workers.length → 0 < fuel →
+      ReachableL g ncls store hidden (resume g s w out fuel).1
+
+theorem ReachableL.reachableF {g : Graph} {ncls : Nat} {store : List (String × List (String × String))} {hidden : List Nat}
+    {s : State} (h : ReachableL g ncls store hidden s) : ReachableF g ncls store s := by
+  induction h with
+  | init => exact .init hidden
+  | step s w out fuel _ hw hf ih => exact .step s w out fuel ih hw hf
+
+theorem reachable_zinv {g : Graph} {d : Nat → Nat} (hr : Ranked g d) (hsym : EdgeSym g) (hz : LazyOK g) {ncls : Nat}
+    {store : List (String × List (String × String))} {hidden : List Nat}
+    (hcls : ∀ n, n < g.nodes.length → (g.node n).cls < ncls)
+    (hroot : hidden.contains g.root = false) (hflat : ∀ f, (g.node f).flat = true → hidden.contains f = false)
+    {s : State} (h : ReachableL g ncls store hidden s) : ZInv g d s := by
+  induction h with
+  | init =>
+    refine ⟨tinv_init g d ncls store hidden hcls, ⟨hroot, hflat⟩, fun u f _ _ => ?_⟩
+    unfold dropped State.cr initState
+    simp only [Bool.false_eq_true, if_false, List.getD_eq_getElem?_getD, List.getElem?_map]
+    cases (List.range ncls)[(g.node g.root).cls]? <;> rfl
+  | step s w out fuel hs hw hf ih =>
+    exact resume_zinv g d hr hsym hz s w out fuel hf hw (hs.reachableF.pinv hsym) ih
+
+/-- in every reachable state of a lazily expanded graph the state hypotheses of `runLoop_terminates_lazy` hold for
+every worker that has not left the loop -/
+theorem reachable_lstate {g : Graph} {d : Nat → Nat} (hr : Ranked g d) (hsym : EdgeSym g) (hz : LazyOK g) {ncls : Nat}
+    {store : List (String × List (String × String))} {hidden : List Nat}
+    (hcls : ∀ n, n < g.nodes.length → (g.node n).cls < ncls)
+    (hroot : hidden.contains g.root = false) (hflat : ∀ f, (g.node f).flat = true → hidden.contains f = false)
+    {s : State} (h : ReachableL g ncls store hidden s) (w : Nat) (hw : w < g.workers.length)
+    (hnd : (s.wd w).pc ≠ .done) : LState g d w s := by
+  have hzi := reachable_zinv (d := d) hr hsym hz hcls hroot hflat h
+  have hp := h.reachableF.pinv hsym
+  have hhead : (s.wd w).path.head? = some g.root := by
+    rcases hp.path w (by rw [hp.wlen]; exact hw) with h1 | h1
+    · exact absurd h1.2 hnd
+    · exact h1.head
+  exact ⟨hzi.tinv.nodesLen, hzi.tinv.cls, hzi.tinv.walk w, hhead, hzi.hid.1, hzi.hid.2, hzi.av w⟩
+
+
 end I2N.Trav.Term
